@@ -186,4 +186,40 @@ CHECKS = {
         'note': 'Trusted: annotations for set-typedness; spec/order_triage.py (9 reasoned entries); dict insertion order.',
         'design_ref': 'DESIGN.md section 3, C18',
     },
+    'C17': {
+        'level': 'other',
+        'technique': 'visitor/grammar table agreement (ast of Encoder and transformer vs the Lark grammar string), dispatch-ends-raising rule',
+        'text': 'Printer/parser agreement as necessary conditions of the round trip: every node class the transformer can build has an '
+                'explicit Encoder handler (the generic Visitor would print nothing), every structured statement kind gets a distinct '
+                'letter, the `$` keywords the Encoder writes are the terminals of the grammar alternative for the same kind, the slicer '
+                'keeps and emits hypotheses in insertion order, and its statement-kind dispatch ends in a raising branch (a constant-true '
+                'assert there was a genuine defect, now fixed). Round-trip identity, self-containedness of slices and re-verification '
+                'are not decided.',
+        'note': 'Trusted: python ast; the grammar is read from the `syntax` constant of metamath/parser.py.',
+        'design_ref': 'DESIGN.md section 3, C17',
+    },
+    'C19': {
+        'level': 'other',
+        'technique': 'abstract evaluation of notation definitions (dependency sets) vs statically evaluated format strings; override-set and label agreement',
+        'text': 'For all 31 Notation constructions the argument indices the definition depends on are contained in the placeholders of the '
+                'format string as the interpreter sees it (f-strings that consume their own {i} are caught; three such notations are '
+                'recorded as known findings pinned by K-generated snapshots); loop-built notations couple MetaVar(i) with placeholder i. '
+                'The pretty printer and the serializer override the same 24 methods, each pretty override prints one terminated step '
+                'whose word is the opcode written. Injectivity of rendering in general is not decided.',
+        'note': 'Trusted: python ast, str.format placeholder syntax. Known findings: equiv, sorted-exists, kore-exists.',
+        'design_ref': 'DESIGN.md section 3, C19',
+    },
+    'C20': {
+        'level': 'other',
+        'technique': 'typestate / guard-before-effect rule on rewrite_event (ast paths) and allocator-shape rules on ConvertionScope',
+        'text': 'rewrite_event registers the claim and proof and advances the configuration only after the raising check that the '
+                'left-hand side of the instantiated rule equals the current configuration; claim = instantiated rule, next configuration '
+                '= its right-hand side, proof = the rule axiom instantiated with the same substitution; the configuration has two '
+                'writers. ConvertionScope allocators are injective and stable (len(table) under a not-in guard, disjoint bases, tables '
+                'never shrink); each axiom is converted in a fresh scope cached under its own ordinal and substitutions are converted '
+                'in that scope by lookup. Commutation of conversion with substitution and checker acceptance are not decided (the K '
+                'modules cannot even be imported here; the analysis is purely syntactic).',
+        'note': 'Trusted: python ast.',
+        'design_ref': 'DESIGN.md section 3, C20',
+    },
 }
